@@ -516,6 +516,70 @@ def fl_{k}(n: size, k: index, x: f32[n + 4]):
     return out
 
 
+def fe_window_chains(tier):
+    """windows of windows: every combination of first-level offset (literal 0 included), second-level
+    offset/extent and final access, reached through window statements and through call arguments"""
+    out = []
+    k = 0
+    offs2 = [0, 1, 2, 3] if tier == "quick" else [0, 1, 2, 3, 4]
+    for a0, L1, b0, L2, how in itertools.product([0, 1, 2], [4, 6], offs2, [2, 4], ["stmt", "callarg", "stmt-read"]):
+        if how == "stmt":
+            body = f"v = w[{b0}:{b0 + L2}]\n    v[{L2 - 1}] = 1.0\n    v[0] = 2.0"
+        elif how == "stmt-read":
+            body = f"v = w[{b0}:{b0 + L2}]\n    y[0] = v[{L2 - 1}]"
+        else:
+            body = f"fwc_fill{L2}(w[{b0}:{b0 + L2}])"
+        src = f"""
+@proc
+def fwc_fill2(d: [f32][2]):
+    for j in seq(0, 2):
+        d[j] = 1.0
+
+@proc
+def fwc_fill4(d: [f32][4]):
+    for j in seq(0, 4):
+        d[j] = 1.0
+
+@proc
+def fwc_{k}(x: f32[8], y: f32[1]):
+    w = x[{a0}:{a0 + L1}]
+    {body}
+"""
+        out.append(Prog(f"fwc_{k}", src, f"fwc_{k}", "FE6", (a0, L1, b0, L2, how)))
+        k += 1
+    # 2-D: a row/column block named by a window statement, rows of it passed on (point + interval)
+    for r0, c0, b0, how in itertools.product([0, 4], [0, 1, 2], [0, 1, 2, 3, 4, 5], ["callarg", "stmt"]):
+        if how == "callarg":
+            body = f"for i in seq(0, 4):\n        fwc_fill4(half[i, {b0}:{b0 + 4}])"
+        else:
+            body = f"for i in seq(0, 4):\n        r = half[i, {b0}:{b0 + 4}]\n        r[3] = 1.0"
+        src = f"""
+@proc
+def fwc_fill4(d: [f32][4]):
+    for j in seq(0, 4):
+        d[j] = 1.0
+
+@proc
+def fwc_{k}(A: f32[8, 8], y: f32[1]):
+    half = A[{r0}:{r0 + 4}, {c0}:{c0 + 6}]
+    {body}
+"""
+        out.append(Prog(f"fwc_{k}", src, f"fwc_{k}", "FE6", (r0, c0, b0, how)))
+        k += 1
+    # symbolic: offsets built from a size argument
+    for a, b, acc in itertools.product(["0", "1", "n"], ["0", "1", "n"], ["0", "n - 1", "n"]):
+        src = f"""
+@proc
+def fwc_{k}(n: size, x: f32[2 * n + 1], y: f32[1]):
+    w = x[{a}:{a} + n + 1]
+    v = w[{b}:{b} + n]
+    v[{acc}] = 1.0
+"""
+        out.append(Prog(f"fwc_{k}", src, f"fwc_{k}", "FE6", (a, b, acc)))
+        k += 1
+    return out
+
+
 def frontend_programs(tier):
-    ps = fe_access(tier) + fe_windows(tier) + fe_calls(tier) + fe_loops(tier)
+    ps = fe_access(tier) + fe_windows(tier) + fe_calls(tier) + fe_loops(tier) + fe_window_chains(tier)
     return ps
